@@ -172,6 +172,9 @@ def add_merged_output_edges(
                     if internal_source:
                         actual_source = internal_source
 
+            # A producer that sits inside a collapsed nested container is drawn as that container
+            actual_source = _nearest_visible_ancestor(actual_source, flat_graph, expansion_state)
+
             actual_targets = [target]
             target_attrs = flat_graph.nodes.get(target, {})
             is_target_container = target_attrs.get("node_type") == "GRAPH"
@@ -316,6 +319,13 @@ def add_separate_output_edges(
                                     break
                             data_value = internal_value
                     data_source = actual_producer
+                    # A producer inside a collapsed nested container: use the DATA node of
+                    # the closest enclosing container that is drawn
+                    while data_source != source and not is_data_node_visible(data_source, data_value, flat_graph, expansion_state):
+                        enclosing = flat_graph.nodes.get(data_source, {}).get("parent")
+                        if enclosing is None:
+                            break
+                        data_source = enclosing
                     if not is_data_node_visible(data_source, data_value, flat_graph, expansion_state):
                         continue
                     data_node_id = f"data_{data_source}_{data_value}"
